@@ -466,9 +466,10 @@ def classify_reader(P, f):
             kinds.add(("BareTagged", ty) if ty.startswith("(") else ("Bare", ty))
         elif n in ("GroupEncoding::from_bytes", "GroupEncoding::from_bytes_unchecked"):
             kinds.add(("PointCompressed",))
-        elif n in ("helpers::scalar_from_be_bytes", "SecretKey<C>::from_be_bytes"):
+        elif n in ("helpers::scalar_from_be_bytes", "SecretKey<C>::from_be_bytes") or (n in P.fns and n.endswith("::from_be_bytes")):
+            # the type's own big-endian importer (its delegation to the zero-rejecting helper is the endian rule's business)
             kinds.add(("ScalarBE",))
-        elif n in ("helpers::scalar_from_le_bytes", "SecretKey<C>::from_le_bytes"):
+        elif n in ("helpers::scalar_from_le_bytes", "SecretKey<C>::from_le_bytes") or (n in P.fns and n.endswith("::from_le_bytes")):
             kinds.add(("ScalarLE",))
         elif n == "TryInto::try_into" and len(g) == 2 and g[1].startswith("[u8;"):
             kinds.add(("Raw",))
